@@ -84,38 +84,58 @@ func ZZ_S07b_RetryTimeout() {
 	}).Build()
 	rp := retrypolicy.Builder[int]().WithMaxRetries(1).Build()
 	n := 0
+	// the first attempt either runs into its limit (or not), or fails at once with a distinguishable outcome
+	firstFails := zzvrt.Choose("first-attempt-fails", 2) == 1
 	r, err := failsafe.NewExecutor[int](rp, to).GetWithExecution(func(e failsafe.Execution[int]) (int, error) {
 		n++
 		zzvrt.CellSet("attemptStart", zzvrt.Now())
 		zzvrt.Assert(!e.IsCanceled(), "timeout: a new attempt starts un-cancelled")
 		if n == 1 {
+			if firstFails {
+				return 5, errA
+			}
 			zzvrt.Sleep(d1)
 		} else {
 			// the execution handed to the function is its own copy: what it shows as the last attempt's outcome
 			// does not change while the attempt runs, even if this attempt's own timeout fires meanwhile (C14/C17)
 			le, lr := e.LastError(), e.LastResult()
-			zzvrt.Assert(errors.Is(le, timeout.ErrExceeded), "stats: LastError is the most recent completed attempt's error")
+			if firstFails {
+				zzvrt.Assert(le == errA, "stats: LastError is the most recent completed attempt's error")
+				zzvrt.Assert(lr == 5, "stats: LastResult is the most recent completed attempt's result")
+			} else {
+				zzvrt.Assert(errors.Is(le, timeout.ErrExceeded), "stats: LastError is the most recent completed attempt's error")
+			}
 			zzvrt.Sleep(d2)
 			zzvrt.Assert(e.LastError() == le, "concurrency: the execution given to the function is not modified by the timeout's goroutine")
 			zzvrt.Assert(e.LastResult() == lr, "concurrency: the execution given to the function is not modified by the timeout's goroutine")
+			zzvrt.Assert(e.LastError() == le, "stats: LastError seen by a running attempt stays the most recent completed attempt's (also once its own timeout has fired)")
+			zzvrt.Assert(e.LastResult() == lr, "stats: LastResult seen by a running attempt stays the most recent completed attempt's (also once its own timeout has fired)")
 		}
 		return 7, nil
 	})
 	zzvrt.Quiesce()
 	listener := zzvrt.CtrGet("listener")
 	zzvrt.Assert(n <= 2, "retry: at most maxRetries+1 attempts")
+	first := 1 // listener calls owed to the first attempt
+	if firstFails {
+		first = 0
+	}
 	if err == nil {
 		zzvrt.Assert(r == 7, "timeout: inner result returned unchanged")
-		zzvrt.Assert(listener == n-1, "timeout: one listener call per timed-out attempt")
 		if n == 2 {
-			zzvrt.Assert(d1 >= T, "timeout: first attempt retried only because it reached the limit")
+			zzvrt.Assert(listener == first, "timeout: one listener call per timed-out attempt")
+			if !firstFails {
+				zzvrt.Assert(d1 >= T, "timeout: first attempt retried only because it reached the limit")
+			}
 			zzvrt.Assert(d2 <= T, "timeout: second attempt succeeded within its own fresh limit")
+		} else {
+			zzvrt.Assert(listener == 0, "timeout: one listener call per timed-out attempt")
 		}
 	} else {
 		zzvrt.Assert(errors.Is(err, retrypolicy.ErrExceeded), "retry: gives up with ExceededError")
 		zzvrt.Assert(errors.Is(err, timeout.ErrExceeded), "retry: ExceededError wraps the last timeout")
 		zzvrt.Assert(n == 2, "retry: both attempts were made")
-		zzvrt.Assert(listener == 2, "timeout: one listener call per timed-out attempt")
+		zzvrt.Assert(listener == first+1, "timeout: one listener call per timed-out attempt")
 		zzvrt.Assert(d2 >= T, "timeout: second attempt had its own full limit")
 	}
 	zzvrt.Assert(zzvrt.Live() == 0, "leak: no library goroutine left after Retry(Timeout)")
@@ -249,4 +269,70 @@ func ZZ_S07e_TimeoutOutside() {
 		zzvrt.Assert(cb.Metrics().Failures() == 1, "nesting: the breaker inside a Timeout records what the function returned")
 	}
 	zzvrt.Reach("timeout-outside-done")
+}
+
+// S07f: Timeout(T)(fn) whose execution is cancelled through the caller's context at a symbolic instant c while the
+// function waits; the function returns the context's error (the usual shape of context-aware code). The Timeout did
+// not fire: context.Canceled comes back unchanged, its listener is never called — not even once T has passed — and
+// its timer does not stay armed after the execution finished (C07, C08, C19).
+func ZZ_S07f_TimeoutCtxCancel() {
+	T := symDur("T", 1, 40)
+	c := symDur("cancelAt", 0, 40)
+	async := zzvrt.Choose("async", 2) == 1
+	returnsCtxErr := zzvrt.Choose("fn-returns-ctx-error", 2) == 1
+	ctx, cancel := context.WithCancel(context.Background())
+	to := timeout.Builder[int](T).OnTimeoutExceeded(func(e failsafe.ExecutionDoneEvent[int]) {
+		zzvrt.CtrAdd("listener", 1)
+	}).Build()
+	go func() {
+		zzvrt.Sleep(c)
+		cancel()
+	}()
+	fn := func(e failsafe.Execution[int]) (int, error) {
+		<-e.Canceled()
+		if returnsCtxErr {
+			return 0, e.Context().Err()
+		}
+		return 9, nil
+	}
+	start := zzvrt.Now()
+	var r int
+	var err error
+	ex := failsafe.NewExecutor[int](to).WithContext(ctx)
+	if async {
+		r, err = ex.GetWithExecutionAsync(fn).Get()
+	} else {
+		r, err = ex.GetWithExecution(fn)
+	}
+	end := zzvrt.Now()
+	listenerAtReturn := zzvrt.CtrGet("listener")
+	armedAtReturn := zzvrt.ArmedTimers()
+	if errors.Is(err, timeout.ErrExceeded) {
+		zzvrt.Assert(end-start >= int64(T), "timeout: ErrExceeded never before the time limit elapsed")
+		zzvrt.Assert(listenerAtReturn <= 1, "timeout: listener called exactly once when ErrExceeded is returned")
+		zzvrt.Assert(c >= T, "timeout: fires only if the function took at least the limit")
+		zzvrt.Reach("ctx-cancel-timed-out")
+	} else {
+		if returnsCtxErr {
+			zzvrt.Assert(errors.Is(err, context.Canceled), "cancel: context cancellation is reported as context.Canceled")
+		} else if err != nil { // a function that answers the cancellation with a result: that result, or the cause
+			zzvrt.Assert(errors.Is(err, context.Canceled), "cancel: context cancellation is reported as context.Canceled")
+		} else {
+			zzvrt.Assert(r == 9, "timeout: inner result returned unchanged")
+		}
+		zzvrt.Assert(end-start == int64(c), "cancel: a cooperating execution ends at the cancellation instant")
+		zzvrt.Assert(armedAtReturn == 0, "leak: the Timeout's timer is stopped when the execution ends by cancellation")
+		zzvrt.Reach("ctx-cancel-wins")
+	}
+	_ = r
+	zzvrt.Sleep(T) // let the limit pass
+	zzvrt.Quiesce()
+	if !errors.Is(err, timeout.ErrExceeded) {
+		zzvrt.Assert(zzvrt.CtrGet("listener") == 0, "timeout: listener never called when the Timeout did not produce the result (also after the limit has passed)")
+	} else {
+		zzvrt.Assert(zzvrt.CtrGet("listener") == 1, "timeout: listener called exactly once when ErrExceeded is returned")
+	}
+	zzvrt.Assert(zzvrt.Live() == 0, "leak: no library goroutine left after a cancelled Timeout execution")
+	zzvrt.Assert(zzvrt.ArmedTimers() == 0, "leak: no library timer left armed after a cancelled Timeout execution")
+	zzvrt.Reach("timeout-ctx-cancel-done")
 }
